@@ -289,7 +289,9 @@ where
     R: Read,
 {
     fn read(&mut self, buf: &mut [u8]) -> std::io::Result<usize> {
-        if self.buffer.is_empty() {
+        // keep fetching PDUs while there is no data to give:
+        // a PDU may carry an empty value without being the last one
+        while self.buffer.is_empty() {
             if self.last_pdu {
                 // reached the end of PData stream
                 return Ok(0);
@@ -681,7 +683,9 @@ pub mod non_blocking {
             cx: &mut Context<'_>,
             buf: &mut ReadBuf,
         ) -> Poll<std::io::Result<()>> {
-            if self.buffer.is_empty() {
+            // keep fetching PDUs while there is no data to give:
+            // a PDU may carry an empty value without being the last one
+            while self.buffer.is_empty() {
                 if self.last_pdu {
                     return Poll::Ready(Ok(()));
                 }
